@@ -535,6 +535,11 @@ func (r *Reader) ReadMessage(codec Codec) (messageInstance any, err error) {
 		return nil, err
 	}
 
+	// WriteMessage 对 nil 消息写入的保留名称：还原为 nil
+	if messageName == nilMessageName {
+		return nil, nil
+	}
+
 	if messageDesc := QueryMessageDescByName(messageName); !messageDesc.IsOutside() {
 		// 内部消息反序列化
 		internalReader := NewReaderFromPool(messageData)
